@@ -153,3 +153,120 @@ func containsAny(s string, subs ...string) bool {
 	}
 	return false
 }
+
+func init() {
+	replayGens["redis.(*client).loopWrite"] = replayLoopWriteQuit
+}
+
+// the backend writer sees quit while it waits to enqueue the request it has just written
+func replayLoopWriteQuit(rc *ReplayCtx) (string, string, string, bool) {
+	if rc.o.Kind != "token" {
+		return "", "", "", false
+	}
+	src := `package redis
+
+import (
+	"io"
+	"io/ioutil"
+	"net"
+	"testing"
+	"time"
+)
+
+func TestGovcReplayLoopWriteQuit(t *testing.T) {
+	lis, err := net.Listen("tcp", "127.0.0.1:0")
+	if err != nil {
+		t.Skip(err)
+	}
+	defer lis.Close()
+	go func() {
+		conn, err := lis.Accept()
+		if err == nil {
+			io.Copy(ioutil.Discard, conn)
+		}
+	}()
+	conn, err := net.Dial("tcp", lis.Addr().String())
+	if err != nil {
+		t.Skip(err)
+	}
+	defer conn.Close()
+	c := newTestClient(t, conn, nil)
+	// the answer queue of the connection is full (a slow backend)
+	for len(c.processingReqs) < cap(c.processingReqs) {
+		c.processingReqs <- newSimpleRequest(newStringArray("get", "x"))
+	}
+	req := newSimpleRequest(newStringArray("get", "a"))
+	c.pendingReqs <- req
+	done := make(chan struct{})
+	go func() { c.loopWrite(); close(done) }()
+	for i := 0; i < 200 && len(c.pendingReqs) > 0; i++ {
+		time.Sleep(5 * time.Millisecond)
+	}
+	time.Sleep(50 * time.Millisecond) // loopWrite has written the request and waits to enqueue it
+	close(c.quit)                     // the connection is being torn down
+	select {
+	case <-done:
+	case <-time.After(2 * time.Second):
+		t.Skip("loopWrite did not return")
+	}
+	c.drainRequests() // what Start does after the loops ended
+	select {
+	case <-req.done:
+	case <-time.After(500 * time.Millisecond):
+		t.Fatalf("REPLAY-VIOLATION the request taken from pendingReqs and already written to the backend is dropped when loopWrite returns on quit: it is in neither queue, drainRequests cannot see it, its client waits forever")
+	}
+}
+`
+	return "proc/redis", "TestGovcReplayLoopWriteQuit", src, true
+}
+
+func init() {
+	replayGens["redis.(*upstream).getClient"] = replayGetClientStale
+}
+
+// a failed first connection attempt is answered from the cache for good
+func replayGetClientStale(rc *ReplayCtx) (string, string, string, bool) {
+	if rc.o.Kind != "post" {
+		return "", "", "", false
+	}
+	src := `package redis
+
+import (
+	"net"
+	"testing"
+)
+
+func TestGovcReplayGetClientStale(t *testing.T) {
+	l, err := net.Listen("tcp", "127.0.0.1:0")
+	if err != nil {
+		t.Skip(err)
+	}
+	addr := l.Addr().String()
+	l.Close() // the backend is down
+	u := newTestUpstream(nil)
+	if _, err := u.getClient(addr); err == nil {
+		t.Skip("port still reachable")
+	}
+	l2, err := net.Listen("tcp", addr) // the backend is reachable again on the same address
+	if err != nil {
+		t.Skip(err)
+	}
+	defer l2.Close()
+	go func() {
+		for {
+			c, err := l2.Accept()
+			if err != nil {
+				return
+			}
+			defer c.Close()
+		}
+	}()
+	c, err := u.getClient(addr)
+	if err != nil {
+		t.Fatalf("REPLAY-VIOLATION the backend %s is reachable again but getClient still answers with the cached result of the first attempt without dialling: %v", addr, err)
+	}
+	c.Stop()
+}
+`
+	return "proc/redis", "TestGovcReplayGetClientStale", src, true
+}
